@@ -58,6 +58,8 @@ func TestVerifC19(t *testing.T) {
 		chunk    int
 		zero     int
 		nrej     int
+		src      int  // index into sourceKindNames
+		trans    bool // the failure is transient
 	}
 	var cases []fcase
 	for nrej := 0; nrej <= 3; nrej++ {
@@ -76,14 +78,34 @@ func TestVerifC19(t *testing.T) {
 								if !hk.Thorough() && (failAt+ek+ci)%2 == 1 && failAt%32 != 0 && failAt%32 != 31 {
 									continue // quick tier: half of the interior cross-product
 								}
-								cases = append(cases, fcase{entry, stream, failAt, ek, wd, ch, []int{0, 0, 3}[(failAt+ci)%3], nrej})
+								cases = append(cases, fcase{entry: entry, stream: stream, failAt: failAt, ek: ek, withData: wd, chunk: ch, zero: []int{0, 0, 3}[(failAt+ci)%3], nrej: nrej})
 							}
+						}
+					}
+				}
+				// the same failure positions through other source TYPES (ByteReader, bufio, LimitReader, MultiReader)
+				// and as TRANSIENT failures (reported once, data continues afterwards): any reported error must
+				// end the call with an error
+				for failAt := 0; failAt <= (nrej+1)*32+1; failAt++ {
+					for src := 0; src < len(sourceKindNames); src++ {
+						for ti, tr := range []bool{false, true} {
+							if src == 0 && !tr {
+								continue
+							}
+							if !hk.Thorough() && (failAt+src+ti+variant)%2 == 1 && failAt%32 != 0 && failAt%32 != 31 {
+								continue
+							}
+							ek := (failAt + src) % len(errKinds)
+							if tr && ek == 0 {
+								ek = 2 // a transient EOF makes no sense
+							}
+							cases = append(cases, fcase{entry: entry, stream: stream, failAt: failAt, ek: ek, withData: (failAt+src)%3 == 0, chunk: chunks[(failAt+ti)%len(chunks)], nrej: nrej, src: src, trans: tr})
 						}
 					}
 				}
 				// no failure at all, only short reads
 				for _, ch := range []int{1, 2, 3, 5, 7, 16, 31, 33} {
-					cases = append(cases, fcase{entry, stream, -1, 0, false, ch, []int{0, 2, 3}[ch%3], nrej})
+					cases = append(cases, fcase{entry: entry, stream: stream, failAt: -1, chunk: ch, zero: []int{0, 2, 3}[ch%3], nrej: nrej})
 				}
 			}
 		}
@@ -93,7 +115,7 @@ func TestVerifC19(t *testing.T) {
 		stream := append(append([]byte{}, first...), ref.B32(randScalar(rng))...)
 		for _, entry := range entries {
 			for failAt := 30; failAt <= 66; failAt++ {
-				cases = append(cases, fcase{entry, stream, failAt, failAt % 3, failAt%2 == 0, chunks[failAt%4], 0, 1})
+				cases = append(cases, fcase{entry: entry, stream: stream, failAt: failAt, ek: failAt % 3, withData: failAt%2 == 0, chunk: chunks[failAt%4], nrej: 1})
 			}
 		}
 	}
@@ -106,18 +128,22 @@ func TestVerifC19(t *testing.T) {
 			avail = avail[:c.failAt]
 		}
 		rd := newScript(c.stream)
-		rd.failAt, rd.failErr, rd.failWithData, rd.chunk, rd.zeroEvery = c.failAt, errKinds[c.ek], c.withData, c.chunk, c.zero
-		det := hk.D{"entry": c.entry, "stream": hk.Hex(c.stream), "fail_at": c.failAt, "err_kind": errNames[c.ek], "with_data": c.withData, "chunk": c.chunk, "zero_every": c.zero, "priv": hk.Hex(priv)}
+		rd.failAt, rd.failErr, rd.failWithData, rd.chunk, rd.zeroEvery, rd.transient = c.failAt, errKinds[c.ek], c.withData, c.chunk, c.zero, c.trans
+		src := wrapSource(rd, c.src)
+		det := hk.D{"source_type": sourceKindNames[c.src], "transient": c.trans, "entry": c.entry, "stream": hk.Hex(c.stream), "fail_at": c.failAt, "err_kind": errNames[c.ek], "with_data": c.withData, "chunk": c.chunk, "zero_every": c.zero, "priv": hk.Hex(priv)}
 		pos := "none"
 		if c.failAt >= 0 {
 			pos = fmt.Sprintf("cand%d+%d", c.failAt/32, c.failAt%32)
 		}
 		cls := fmt.Sprintf("%s:nrej=%d,fail=%s", c.entry, c.nrej, pos)
+		if c.src != 0 || c.trans {
+			cls = fmt.Sprintf("%s:src=%s,transient=%v,nrej=%d,fail=+%d", c.entry, sourceKindNames[c.src], c.trans, c.nrej, c.failAt%32)
+		}
 		if c.entry == "GenerateKey" {
 			model := ref.SM2KeyGen(avail)
 			var gp, gx, gy []byte
 			var err error
-			p, pm, _, _ := hk.Try(func() { gp, gx, gy, err = GenerateKey(rd) })
+			p, pm, _, _ := hk.Try(func() { gp, gx, gy, err = GenerateKey(src) })
 			det["priv_out"], det["x"], det["y"], det["error"] = hexOrNil(gp), hexOrNil(gx), hexOrNil(gy), errStr(err)
 			det["reads"] = rd.events
 			switch {
@@ -149,11 +175,11 @@ func TestVerifC19(t *testing.T) {
 		p, pm, _, _ := hk.Try(func() {
 			switch c.entry {
 			case "SignHashed":
-				rr, ss, err = SignHashed(rd, priv, e)
+				rr, ss, err = SignHashed(src, priv, e)
 			case "SignZa":
-				rr, ss, err = SignZa(rd, priv, za, msg)
+				rr, ss, err = SignZa(src, priv, za, msg)
 			default:
-				rr, ss, err = Sign(id, px, py, rd, priv, msg)
+				rr, ss, err = Sign(id, px, py, src, priv, msg)
 			}
 		})
 		det["r"], det["s"], det["error"] = hexOrNil(rr), hexOrNil(ss), errStr(err)
